@@ -4,6 +4,10 @@ import Mimium.Proofs.SchedMore
 import Mimium.Model.SchedMem
 import Mimium.Proofs.SchedMem
 import Mimium.Gen.Sched
+import Mimium.Proofs.HeapStdQueue
+import Mimium.Proofs.SchedHeap
+import Mimium.Proofs.SchedMemRec
+import Mimium.Model.SchedIO
 /-!
 # C11 — scheduled tasks run exactly once at exactly their sample time
 
@@ -39,7 +43,18 @@ What is proved here (about `Model/Sched.lean`, a literal port of `scheduler.rs`,
   memory (`Model/SchedMem.lean`); what remains true: `C11_wasm_queue_partial` (queue logic, handles assumed stable) and
   `C11_wasm_mem_slot_consistent_partial` (memory included, programs whose `j`-th `@` of every body names one fixed function).
 
-Not proved (exercised by the correspondence only): `BinaryHeap`/`mpsc` themselves, closure retention
+* the heap itself: `C11_heap_push_invariant`, `C11_heap_pop_invariant`, `C11_heap_multiset`, `C11_heap_pop_min`,
+  `C11_heap_refines_priority_queue` (+ `C11_heap_pop_keys_eq_sorted_queue`, `C11_heap_eq_sorted_queue_of_total_order`,
+  `C11_heap_tie_order_witness`): the literal port of `BinaryHeap::push`/`pop` is a priority queue ordered by `when`;
+  `C11_binary_heap_meets_spec` and the `…_on_binary_heap` corollaries restate every theorem above for the scheduler
+  loops with that port inside (`Vm.runH stdHeap`, `W.runH stdHeap`, `M.run stdHeap`), with no oracle and no hypothesis
+  about the heap;
+* closure records with captured values (`R.run fmt`, records of any size): `C11_wasm_mem_records_one_cell_eq`,
+  `C11_wasm_mem_records_slot_consistent_partial` (+ `…_on_binary_heap`), `C11_table_record_format_ok`,
+  `C11_wasm_record_upvalue_read_as_function_counterexample` (a task is dropped).
+
+Not proved (exercised by the correspondence only): that the port IS what `std::collections::BinaryHeap` does (exact pop
+order compared on every handle-level history), `mpsc` FIFO, closure retention
 (`resolve_closure`/`execute_closure`), the `f64 as u64` truncation (the driver uses `Float.toUInt64`, compared against
 the real code on fractional / negative / NaN / huge times), the compiler's translation of `@`.
 -/
@@ -230,7 +245,7 @@ theorem C11_wasm_mem_slot_consistent_partial {σ H : Type} (ops : HeapOps H) (to
     ∀ (t : Nat) (ht : t < (M.run ops env n s0).ticks.length),
       ((M.run ops env n s0).ticks[t]).execd.Perm
         ((issuedBefore (M.run ops env n s0).greqs (M.run ops env n s0).ticks t).filter (fun x => decide (x.when = t))) := by
-  obtain ⟨st', e, l, g, idl⟩ := M.run_spec hs hf hc n s0
+  obtain ⟨st', e, l, g, idl⟩ := M.run_spec hs.toI hf hc n s0
   refine ⟨by simp [e], l, idl, ?_⟩
   intro t ht
   have := idl.onTime t ht
@@ -239,6 +254,371 @@ theorem C11_wasm_mem_slot_consistent_partial {σ H : Type} (ops : HeapOps H) (to
 /-- the abstract heap with any tie oracle is such an implementation -/
 theorem C11_oracle_heap_meets_spec (ch : Nat → Nat) : HeapSpec (oracleHeap ch) (fun h => h.1) :=
   oracleHeap_spec ch
+
+/-! ## The literal `BinaryHeap<Reverse<Task>>` port is a priority queue (theorems, no longer a trusted assumption)
+
+`stdPush` / `stdPop` (`Model/SchedMem.lean`) port `BinaryHeap::push` (`sift_up`) and `BinaryHeap::pop`
+(`sift_down_to_bottom` + `sift_up`) on an array. The key is `Reverse<Task>` with `Ord for Task` comparing `when` ONLY
+(`C11_source_shape`: `self.when.cmp(&other.when)`) — there is no sequence number, so the order is a total PREorder:
+`IsHeap d` = min-heap on `when`. The exact pop order of the port (ties included) is what the real `WasmSchedulerHandle`
+is compared with, history by history, in the correspondence stage. -/
+
+/-- `push` keeps the array a heap. -/
+theorem C11_heap_push_invariant (x : Task) (d : Array Task) (h : IsHeap d) : IsHeap (stdPush x d) :=
+  stdPush_isHeap x d h
+
+/-- `push` adds exactly one element (as a multiset; no invariant needed). -/
+theorem C11_heap_multiset (x : Task) (d : Array Task) :
+    (stdPush x d).toList.Perm (x :: d.toList) ∧ (stdPush x d).size = d.size + 1 :=
+  ⟨stdPush_perm x d, stdPush_size x d⟩
+
+/-- `pop` keeps the array a heap. -/
+theorem C11_heap_pop_invariant (d : Array Task) (h : IsHeap d) (x : Task) (r : Array Task)
+    (e : stdPop d = some (x, r)) : IsHeap r := by
+  have hs : d.size ≠ 0 := fun h0 => by rw [(stdPop_none d).2 h0] at e; cases e
+  obtain ⟨r', e', hr, _, _⟩ := stdPop_spec d h hs
+  rw [e'] at e
+  simp only [Option.some.injEq, Prod.mk.injEq] at e
+  rw [← e.2]
+  exact hr
+
+/-- `pop` returns `None` exactly on the empty heap; otherwise it returns a member with minimal `when` and removes
+exactly one occurrence of it: the old contents are a permutation of the popped element plus the new contents. -/
+theorem C11_heap_pop_min (d : Array Task) (h : IsHeap d) :
+    (stdPop d = none ↔ d.size = 0) ∧
+    ∀ (x : Task) (r : Array Task), stdPop d = some (x, r) →
+      x ∈ d.toList ∧ (∀ y ∈ d.toList, x.when ≤ y.when) ∧ d.toList.Perm (x :: r.toList) ∧ r.size + 1 = d.size := by
+  refine ⟨stdPop_none d, ?_⟩
+  intro x r e
+  have hs : d.size ≠ 0 := fun h0 => by rw [(stdPop_none d).2 h0] at e; cases e
+  obtain ⟨r', e', _, p, hsz⟩ := stdPop_spec d h hs
+  rw [e'] at e
+  simp only [Option.some.injEq, Prod.mk.injEq] at e
+  obtain ⟨rfl, rfl⟩ := e
+  exact ⟨p.mem_iff.2 (List.mem_cons_self ..), h.root_min, p, hsz⟩
+
+/-- **Refinement.** Any sequence of `push`/`pop` on the port, started from any heap, behaves pop by pop as a priority
+queue ordered by `when` over the multiset of its contents (`PQTrace`): `None` exactly when empty; otherwise a member
+of minimal `when`, exactly one occurrence of which is removed. WHICH of several members with the same `when` is
+returned is not determined by the specification (and, for the real heap, depends on the array layout: see
+`C11_heap_tie_order_witness`). -/
+theorem C11_heap_refines_priority_queue (ops : List QOp) (d : Array Task) (h : IsHeap d) :
+    PQTrace d.toList ops (runStd ops d) :=
+  runStd_trace ops d h
+
+/-- Up to the order among equal keys the port IS the sorted-list queue: from contents with the same multiset of keys,
+the two pop the same `when` at every pop (and `None` at the same pops). -/
+theorem C11_heap_pop_keys_eq_sorted_queue (ops : List QOp) (d : Array Task) (l : List Task) (h : IsHeap d)
+    (hl : SortedByWhen l) (hk : (d.toList.map (·.when)).Perm (l.map (·.when))) :
+    (runStd ops d).map (Option.map (·.when)) = (runSorted ops l).map (Option.map (·.when)) :=
+  PQTrace.keys_eq ops (runStd_trace ops d h) (runSorted_trace ops l hl) hk
+
+/-- When the order is total on the tasks involved (`when` injective on contents and pushed tasks — e.g. a key with a
+sequence number, or all scheduled times distinct) the port equals the sorted-list queue exactly. -/
+theorem C11_heap_eq_sorted_queue_of_total_order (ops : List QOp) (d : Array Task) (l : List Task) (h : IsHeap d)
+    (hl : SortedByWhen l) (hp : d.toList.Perm l) (inj : KeyInj (d.toList ++ pushed ops)) :
+    runStd ops d = runSorted ops l :=
+  PQTrace.unique ops (runStd_trace ops d h) (runSorted_trace ops l hl) hp inj
+
+/-- Among equal keys the port (like the real heap) is neither FIFO nor LIFO: four tasks with the same time pushed in
+the order 0,1,2,3 are popped 0,2,1,3 (FIFO sorted-list queue: 0,1,2,3; LIFO: 3,2,1,0). This order is what the real
+`BinaryHeap` produces (handle-level correspondence, exact pop order). -/
+theorem C11_heap_tie_order_witness :
+    (runStd [.push ⟨1, 0⟩, .push ⟨1, 1⟩, .push ⟨1, 2⟩, .push ⟨1, 3⟩, .pop, .pop, .pop, .pop] #[]).map (Option.map (·.id))
+      = [some 0, some 2, some 1, some 3] ∧
+    (runSorted [.push ⟨1, 0⟩, .push ⟨1, 1⟩, .push ⟨1, 2⟩, .push ⟨1, 3⟩, .pop, .pop, .pop, .pop] []).map (Option.map (·.id))
+      = [some 0, some 1, some 2, some 3] ∧
+    (runSortedLifo [.push ⟨1, 0⟩, .push ⟨1, 1⟩, .push ⟨1, 2⟩, .push ⟨1, 3⟩, .pop, .pop, .pop, .pop] []).map (Option.map (·.id))
+      = [some 3, some 2, some 1, some 0] := by
+  decide +kernel
+
+/-- non-vacuity: the empty array is a heap, so the refinement covers every history of a fresh queue; and the
+total-order premise is satisfiable with the outputs being non-trivial -/
+example (ops : List QOp) : PQTrace [] ops (runStd ops #[]) := C11_heap_refines_priority_queue ops #[] isHeap_empty
+example (ops : List QOp) : (runStd ops #[]).map (Option.map (·.when)) = (runSorted ops []).map (Option.map (·.when)) :=
+  C11_heap_pop_keys_eq_sorted_queue ops #[] [] isHeap_empty List.Pairwise.nil (List.Perm.refl _)
+example : KeyInj ((#[] : Array Task).toList ++ pushed [.push ⟨3, 0⟩, .push ⟨1, 1⟩, .pop, .push ⟨2, 2⟩, .pop, .pop, .pop]) := by
+  unfold KeyInj; decide
+example : runStd [.push ⟨3, 0⟩, .push ⟨1, 1⟩, .pop, .push ⟨2, 2⟩, .pop, .pop, .pop] #[]
+    = [some ⟨1, 1⟩, some ⟨2, 2⟩, some ⟨3, 0⟩, none] := by decide +kernel
+example : IsHeap (stdPush ⟨1, 7⟩ (stdPush ⟨2, 8⟩ #[])) :=
+  C11_heap_push_invariant _ _ (C11_heap_push_invariant _ _ isHeap_empty)
+example : stdPop (stdPush ⟨1, 7⟩ (stdPush ⟨2, 8⟩ #[])) = some (⟨1, 7⟩, #[⟨2, 8⟩]) := by decide +kernel
+
+
+/-! ## The C11 theorems with the real heap algorithm inside (`…_on_binary_heap`)
+
+`Vm.runH ops` / `W.runH ops` (`Model/SchedHeap.lean`) are the two scheduler loops of `Model/Sched.lean` written over a
+heap implementation `ops` instead of a list with a tie oracle; `M.run ops` is the WASM side with closure memory.
+With `ops := stdHeap` (the literal `BinaryHeap` port) nothing about the heap is assumed any more: the port meets the
+priority-queue specification (`C11_binary_heap_meets_spec`, from the `C11_heap_*` theorems), hence every statement
+above holds for the schedulers running the real sift-up / sift-down code, whatever its tie order. -/
+
+/-- the literal `BinaryHeap` port meets the priority-queue specification used by the scheduler proofs, with contents
+`Array.toList` and representation invariant `IsHeap` (established by `new`, kept by `push` and `pop`) -/
+theorem C11_binary_heap_meets_spec : HeapSpecI stdHeap Array.toList IsHeap := stdHeap_spec
+
+/-- VM scheduler over ANY heap implementation meeting the specification: no panic, `n` samples, ideal run, invariant. -/
+theorem C11_vm_ideal_over_any_heap {σ H : Type} (ops : HeapOps H) (toList : H → List Task) (Inv : H → Prop)
+    (hs : HeapSpecI ops toList Inv) (env : Env σ) (n : Nat) (s0 : σ) (hf : env.Future) :
+    ∃ st, (Vm.runH ops env n s0).final = some st ∧ (Vm.runH ops env n s0).ticks.length = n ∧
+      Ideal env 0 (env.global s0).2 (env.global s0).1 (Vm.runH ops env n s0).ticks ∧
+      VmInvH toList Inv n ((Vm.runH ops env n s0).greqs ++ (Vm.runH ops env n s0).ticks.flatMap (·.reqs)) st := by
+  obtain ⟨st', e, l, idl, inv⟩ := Vm.runH_spec hs env n s0 hf
+  exact ⟨st', e, l, idl, by simpa using inv⟩
+
+/-- WASM scheduler (handles stable) over ANY heap implementation meeting the specification. -/
+theorem C11_wasm_ideal_over_any_heap {σ H : Type} (ops : HeapOps H) (toList : H → List Task) (Inv : H → Prop)
+    (hs : HeapSpecI ops toList Inv) (env : Env σ) (n : Nat) (s0 : σ) (hf : env.Future) :
+    ∃ st, (W.runH ops env n s0).final = some st ∧ (W.runH ops env n s0).ticks.length = n ∧
+      Ideal env 0 (env.global s0).2 (env.global s0).1 (W.runH ops env n s0).ticks ∧
+      WInvH toList Inv n ((W.runH ops env n s0).greqs ++ (W.runH ops env n s0).ticks.flatMap (·.reqs)) st := by
+  obtain ⟨st', e, l, g, idl, inv⟩ := W.runH_spec hs env n s0 hf
+  exact ⟨st', e, l, idl, by simpa [g] using inv⟩
+
+theorem C11_vm_exactly_once_on_time_on_binary_heap {σ : Type} (env : Env σ) (n : Nat) (s0 : σ) (hf : env.Future) :
+    (Vm.runH stdHeap env n s0).final.isSome ∧ (Vm.runH stdHeap env n s0).ticks.length = n ∧
+    ∀ (t : Nat) (ht : t < (Vm.runH stdHeap env n s0).ticks.length),
+      ((Vm.runH stdHeap env n s0).ticks[t]).execd.Perm
+        ((issuedBefore (Vm.runH stdHeap env n s0).greqs (Vm.runH stdHeap env n s0).ticks t).filter
+          (fun x => decide (x.when = t))) := by
+  obtain ⟨st', e, l, idl, _⟩ := Vm.runH_spec stdHeap_spec env n s0 hf
+  refine ⟨by simp [e], l, ?_⟩
+  intro t ht
+  have := idl.onTime t ht
+  simpa [issuedBefore] using this
+
+theorem C11_wasm_exactly_once_on_time_on_binary_heap {σ : Type} (env : Env σ) (n : Nat) (s0 : σ) (hf : env.Future) :
+    (W.runH stdHeap env n s0).final.isSome ∧ (W.runH stdHeap env n s0).ticks.length = n ∧
+    ∀ (t : Nat) (ht : t < (W.runH stdHeap env n s0).ticks.length),
+      ((W.runH stdHeap env n s0).ticks[t]).execd.Perm
+        ((issuedBefore (W.runH stdHeap env n s0).greqs (W.runH stdHeap env n s0).ticks t).filter
+          (fun x => decide (x.when = t))) := by
+  obtain ⟨st', e, l, g, idl, _⟩ := W.runH_spec stdHeap_spec env n s0 hf
+  refine ⟨by simp [e], l, ?_⟩
+  intro t ht
+  have := idl.onTime t ht
+  simpa [issuedBefore, g] using this
+
+theorem C11_vm_before_dsp_on_binary_heap {σ : Type} (env : Env σ) (n : Nat) (s0 : σ) (hf : env.Future) :
+    Ideal env 0 (env.global s0).2 (env.global s0).1 (Vm.runH stdHeap env n s0).ticks := by
+  obtain ⟨_, _, _, idl, _⟩ := Vm.runH_spec stdHeap_spec env n s0 hf
+  exact idl
+
+theorem C11_wasm_before_dsp_on_binary_heap {σ : Type} (env : Env σ) (n : Nat) (s0 : σ) (hf : env.Future) :
+    Ideal env 0 (env.global s0).2 (env.global s0).1 (W.runH stdHeap env n s0).ticks := by
+  obtain ⟨_, _, _, _, idl, _⟩ := W.runH_spec stdHeap_spec env n s0 hf
+  exact idl
+
+theorem C11_vm_never_early_never_late_on_binary_heap {σ : Type} (env : Env σ) (n : Nat) (s0 : σ) (hf : env.Future)
+    (t : Nat) (ht : t < (Vm.runH stdHeap env n s0).ticks.length) (x : Task)
+    (hx : x ∈ ((Vm.runH stdHeap env n s0).ticks[t]).execd) : x.when = t := by
+  have := ((C11_vm_exactly_once_on_time_on_binary_heap env n s0 hf).2.2 t ht).mem_iff.1 hx
+  simpa using (List.mem_filter.1 this).2
+
+theorem C11_wasm_never_early_never_late_on_binary_heap {σ : Type} (env : Env σ) (n : Nat) (s0 : σ) (hf : env.Future)
+    (t : Nat) (ht : t < (W.runH stdHeap env n s0).ticks.length) (x : Task)
+    (hx : x ∈ ((W.runH stdHeap env n s0).ticks[t]).execd) : x.when = t := by
+  have := ((C11_wasm_exactly_once_on_time_on_binary_heap env n s0 hf).2.2 t ht).mem_iff.1 hx
+  simpa using (List.mem_filter.1 this).2
+
+/-- explicit invariant with the array inside: it is a heap, `cur_time` is the last sample, the channel only holds
+later tasks, and array ∪ channel is exactly the multiset of issued-but-not-yet-due tasks -/
+theorem C11_vm_invariant_on_binary_heap {σ : Type} (env : Env σ) (n : Nat) (s0 : σ) (hf : env.Future) :
+    ∃ st, (Vm.runH stdHeap env n s0).final = some st ∧
+      VmInvH Array.toList IsHeap n
+        ((Vm.runH stdHeap env n s0).greqs ++ (Vm.runH stdHeap env n s0).ticks.flatMap (·.reqs)) st := by
+  obtain ⟨st, e, _, _, inv⟩ := C11_vm_ideal_over_any_heap stdHeap _ _ stdHeap_spec env n s0 hf
+  exact ⟨st, e, inv⟩
+
+theorem C11_wasm_invariant_on_binary_heap {σ : Type} (env : Env σ) (n : Nat) (s0 : σ) (hf : env.Future) :
+    ∃ st, (W.runH stdHeap env n s0).final = some st ∧
+      WInvH Array.toList IsHeap n
+        ((W.runH stdHeap env n s0).greqs ++ (W.runH stdHeap env n s0).ticks.flatMap (·.reqs)) st := by
+  obtain ⟨st, e, _, _, inv⟩ := C11_wasm_ideal_over_any_heap stdHeap _ _ stdHeap_spec env n s0 hf
+  exact ⟨st, e, inv⟩
+
+theorem C11_vm_executions_eq_requests_on_binary_heap {σ : Type} (env : Env σ) (n : Nat) (s0 : σ) (hf : env.Future)
+    (x : Task) (hx : x.when < n) :
+    ((Vm.runH stdHeap env n s0).ticks.flatMap (·.execd)).count x
+      = ((Vm.runH stdHeap env n s0).greqs ++ (Vm.runH stdHeap env n s0).ticks.flatMap (·.reqs)).count x := by
+  obtain ⟨_, _, l, idl, _⟩ := Vm.runH_spec stdHeap_spec env n s0 hf
+  simpa using idl.count_eq hf x (Nat.zero_le _) (by omega)
+
+theorem C11_wasm_executions_eq_requests_on_binary_heap {σ : Type} (env : Env σ) (n : Nat) (s0 : σ) (hf : env.Future)
+    (x : Task) (hx : x.when < n) :
+    ((W.runH stdHeap env n s0).ticks.flatMap (·.execd)).count x
+      = ((W.runH stdHeap env n s0).greqs ++ (W.runH stdHeap env n s0).ticks.flatMap (·.reqs)).count x := by
+  obtain ⟨_, _, l, g, idl, _⟩ := W.runH_spec stdHeap_spec env n s0 hf
+  simpa [g] using idl.count_eq hf x (Nat.zero_le _) (by omega)
+
+/-- both schedulers with the real heap inside execute the same multiset in every sample (programs with `ReqDet`) -/
+theorem C11_vm_wasm_same_ticks_on_binary_heap {σ : Type} (env : Env σ) (n : Nat) (s0 : σ)
+    (hf : env.Future) (hd : env.ReqDet)
+    (t : Nat) (h1 : t < (Vm.runH stdHeap env n s0).ticks.length) (h2 : t < (W.runH stdHeap env n s0).ticks.length) :
+    ((Vm.runH stdHeap env n s0).ticks[t]).execd.Perm ((W.runH stdHeap env n s0).ticks[t]).execd := by
+  obtain ⟨_, _, _, i1, _⟩ := Vm.runH_spec stdHeap_spec env n s0 hf
+  obtain ⟨_, _, _, _, i2, _⟩ := W.runH_spec stdHeap_spec env n s0 hf
+  exact Ideal.same_ticks hd i1 i2 (List.Perm.refl _) t h1 h2
+
+/-- … and the same multiset as the oracle-heap models of `Model/Sched.lean`, for every oracle -/
+theorem C11_binary_heap_same_ticks_as_oracle_heap {σ : Type} (env : Env σ) (ch : Nat → Nat) (n : Nat) (s0 : σ)
+    (hf : env.Future) (hd : env.ReqDet)
+    (t : Nat) (h1 : t < (Vm.runH stdHeap env n s0).ticks.length) (h2 : t < (Vm.run env ch n s0).ticks.length) :
+    ((Vm.runH stdHeap env n s0).ticks[t]).execd.Perm ((Vm.run env ch n s0).ticks[t]).execd := by
+  obtain ⟨_, _, _, i1, _⟩ := Vm.runH_spec stdHeap_spec env n s0 hf
+  obtain ⟨_, _, _, i2, _⟩ := Vm.run_spec env ch n s0 hf
+  exact Ideal.same_ticks hd i1 i2 (List.Perm.refl _) t h1 h2
+
+theorem C11_vm_self_reschedule_chain_on_binary_heap {σ : Type} (env : Env σ) (n : Nat) (s0 : σ) (hf : env.Future)
+    (a t0 p : Nat) (hp : 1 ≤ p) (h0 : (⟨t0, a⟩ : Task) ∈ (env.global s0).2)
+    (hre : ∀ now s, (⟨now + p, a⟩ : Task) ∈ (env.task a now s).2)
+    (k : Nat) (hk : t0 + k * p < (Vm.runH stdHeap env n s0).ticks.length) :
+    (⟨t0 + k * p, a⟩ : Task) ∈ ((Vm.runH stdHeap env n s0).ticks[t0 + k * p]).execd := by
+  obtain ⟨_, _, _, idl, _⟩ := Vm.runH_spec stdHeap_spec env n s0 hf
+  exact idl.chain a t0 p hp h0 hre k hk
+
+theorem C11_wasm_self_reschedule_chain_on_binary_heap {σ : Type} (env : Env σ) (n : Nat) (s0 : σ) (hf : env.Future)
+    (a t0 p : Nat) (hp : 1 ≤ p) (h0 : (⟨t0, a⟩ : Task) ∈ (env.global s0).2)
+    (hre : ∀ now s, (⟨now + p, a⟩ : Task) ∈ (env.task a now s).2)
+    (k : Nat) (hk : t0 + k * p < (W.runH stdHeap env n s0).ticks.length) :
+    (⟨t0 + k * p, a⟩ : Task) ∈ ((W.runH stdHeap env n s0).ticks[t0 + k * p]).execd := by
+  obtain ⟨_, _, _, _, idl, _⟩ := W.runH_spec stdHeap_spec env n s0 hf
+  exact idl.chain a t0 p hp h0 hre k hk
+
+/-- `C11_wasm_queue_partial` with the real heap inside -/
+theorem C11_wasm_queue_partial_on_binary_heap {σ : Type} (env : Env σ) (n : Nat) (s0 : σ) (hf : env.Future) :
+    (W.runH stdHeap env n s0).final.isSome ∧ (W.runH stdHeap env n s0).ticks.length = n ∧
+    Ideal env 0 (env.global s0).2 (env.global s0).1 (W.runH stdHeap env n s0).ticks := by
+  obtain ⟨st', e, l, _, idl, _⟩ := W.runH_spec stdHeap_spec env n s0 hf
+  exact ⟨by simp [e], l, idl⟩
+
+/-- `C11_wasm_mem_slot_consistent_partial` for `M.run stdHeap` — the model the driver runs against the real WASM
+runtime: closure memory AND the literal `BinaryHeap` port, no hypothesis on the heap left. -/
+theorem C11_wasm_mem_slot_consistent_on_binary_heap {σ : Type} (env : Env σ) (slot : Nat → Nat) (n : Nat) (s0 : σ)
+    (hf : env.Future) (hc : env.SlotConsistent slot) :
+    (M.run stdHeap env n s0).final.isSome ∧ (M.run stdHeap env n s0).ticks.length = n ∧
+    Ideal env 0 (env.global s0).2 (env.global s0).1 (M.run stdHeap env n s0).ticks ∧
+    ∀ (t : Nat) (ht : t < (M.run stdHeap env n s0).ticks.length),
+      ((M.run stdHeap env n s0).ticks[t]).execd.Perm
+        ((issuedBefore (M.run stdHeap env n s0).greqs (M.run stdHeap env n s0).ticks t).filter
+          (fun x => decide (x.when = t))) := by
+  obtain ⟨st', e, l, g, idl⟩ := M.run_spec stdHeap_spec hf hc n s0
+  refine ⟨by simp [e], l, idl, ?_⟩
+  intro t ht
+  have := idl.onTime t ht
+  simpa [issuedBefore, g] using this
+
+/-- the F17 witness with the real heap inside: same wrong executions (no ties in that run) -/
+theorem C11_wasm_closure_reuse_counterexample_on_binary_heap :
+    (M.run stdHeap f17Env 6 ()).ticks.map (·.execd) = [[], [⟨1, 2⟩], [⟨2, 3⟩], [⟨3, 1⟩], [⟨4, 1⟩], []] ∧
+    (W.runH stdHeap f17Env 6 ()).ticks.map (·.execd) = [[], [⟨1, 2⟩], [⟨2, 3⟩], [⟨3, 0⟩], [⟨4, 1⟩], []] ∧
+    (Vm.runH stdHeap f17Env 6 ()).ticks.map (·.execd) = [[], [⟨1, 2⟩], [⟨2, 3⟩], [⟨3, 0⟩], [⟨4, 1⟩], []] := by
+  decide +kernel
+
+/-- non-vacuity of the `…_on_binary_heap` family: `counterEnv` (premises shown below) runs, one execution per sample -/
+example : (Vm.runH stdHeap counterEnv 5 0).ticks.map (·.execd.length) = [0, 1, 1, 1, 1] := by decide +kernel
+example : (W.runH stdHeap counterEnv 5 0).ticks.map (·.execd.length) = [0, 1, 1, 1, 1] := by decide +kernel
+example : (M.run stdHeap counterEnv 5 0).ticks.map (·.execd.length) = [0, 1, 1, 1, 1] := by decide +kernel
+
+
+/-! ## Closure records with upvalues (records larger than one cell): `R.run`
+
+`R.run fmt` (`Model/SchedMem.lean`) is the WASM side with closure memory where a record is `[function word][captured
+words…]` (`RecFmt`): records of one body are laid out back to back from the same base, the trampoline reads the function
+word at the task's address (a captured word found there makes `call_indirect` trap: the task is DROPPED) and the callee
+reads its captured words behind it. The driver runs `R.run tableFmt stdHeap` on generated programs whose closures
+capture a float (`selK(t, v)`); `M.run` is the one-cell instance. -/
+
+/-- with one-cell records `[id]` the model with record layout IS `M.run` -/
+theorem C11_wasm_mem_records_one_cell_eq {σ H : Type} (ops : HeapOps H) (env : Env σ) (n : Nat) (s0 : σ) :
+    R.run unitFmt ops env n s0 = M.run ops env n s0 :=
+  R.run_unitFmt ops env n s0
+
+/-- `C11_wasm_mem_slot_consistent_partial` for records of any sizes, over any heap meeting the specification: if the
+`j`-th `@` of every body always names the same closure (same function AND same captured words, hence same record size
+and address) and the layout is well formed (`RecFmt.Ok`: intact cells of closure `id` make the trampoline run `id`),
+the run is ideal. -/
+theorem C11_wasm_mem_records_slot_consistent_partial {σ H : Type} (ops : HeapOps H) (toList : H → List Task)
+    (Inv : H → Prop) (hs : HeapSpecI ops toList Inv) (fmt : RecFmt) (ok : fmt.Ok) (env : Env σ) (slot : Nat → Nat)
+    (n : Nat) (s0 : σ) (hf : env.Future) (hc : env.SlotConsistent slot) :
+    (R.run fmt ops env n s0).final.isSome ∧ (R.run fmt ops env n s0).ticks.length = n ∧
+    Ideal env 0 (env.global s0).2 (env.global s0).1 (R.run fmt ops env n s0).ticks ∧
+    ∀ (t : Nat) (ht : t < (R.run fmt ops env n s0).ticks.length),
+      ((R.run fmt ops env n s0).ticks[t]).execd.Perm
+        ((issuedBefore (R.run fmt ops env n s0).greqs (R.run fmt ops env n s0).ticks t).filter
+          (fun x => decide (x.when = t))) := by
+  obtain ⟨st', e, l, g, idl⟩ := R.run_spec hs hf hc ok n s0
+  refine ⟨by simp [e], l, idl, ?_⟩
+  intro t ht
+  have := idl.onTime t ht
+  simpa [issuedBefore, g] using this
+
+/-- … in particular with the literal `BinaryHeap` port inside -/
+theorem C11_wasm_mem_records_slot_consistent_on_binary_heap {σ : Type} (fmt : RecFmt) (ok : fmt.Ok) (env : Env σ)
+    (slot : Nat → Nat) (n : Nat) (s0 : σ) (hf : env.Future) (hc : env.SlotConsistent slot) :
+    (R.run fmt stdHeap env n s0).final.isSome ∧ (R.run fmt stdHeap env n s0).ticks.length = n ∧
+    Ideal env 0 (env.global s0).2 (env.global s0).1 (R.run fmt stdHeap env n s0).ticks :=
+  let h := C11_wasm_mem_records_slot_consistent_partial stdHeap _ _ stdHeap_spec fmt ok env slot n s0 hf hc
+  ⟨h.1, h.2.1, h.2.2.1⟩
+
+/-- the layout the driver uses for generated programs (`tK`: one cell; closure of `selK(t, v)`: two cells) is well formed -/
+theorem C11_table_record_format_ok : tableFmt.Ok := by
+  constructor
+  intro id rd h
+  by_cases hid : id < lamBase
+  · have h0 := h 0 (by simp [tableFmt, hid])
+    simp only [tableFmt, hid, if_true, List.getElem_cons_zero] at h0
+    simp only [tableFmt, h0]
+    have : 1 ≤ 1 + id ∧ 1 + id ≤ lamBase := by unfold lamBase at hid ⊢; omega
+    simp [this]
+  · have h0 := h 0 (by simp [tableFmt, hid])
+    have h1 := h 1 (by simp [tableFmt, hid])
+    simp only [tableFmt, hid, if_false, List.getElem_cons_zero, List.getElem_cons_succ] at h0 h1
+    simp only [tableFmt, h0, h1]
+    unfold lamBase lamId at *
+    have a1 : ¬ (1 ≤ 65536 + 1 + id % 65536 ∧ 65536 + 1 + id % 65536 ≤ 65536) := by omega
+    have a2 : 65536 < 65536 + 1 + id % 65536 ∧ 65536 + 1 + id % 65536 ≤ 2 * 65536 := by omega
+    simp only [a1, a2, if_false, if_true, and_self, Option.some.injEq]
+    have : id / 65536 - 1 + 1 = id / 65536 := by omega
+    rw [this]
+    have := Nat.div_add_mod id 65536
+    have e : 65536 + 1 + id % 65536 - 65536 - 1 = id % 65536 := by omega
+    rw [e]
+    rw [Nat.mul_comm]
+    exact this
+
+/-- **Negation on a concrete witness, records with an upvalue**: the task `t1@6` issued by `t3` is never executed —
+by sample 6 its address holds the captured word of closure 10's record, the trampoline's `call_indirect` traps and the
+scheduler goes on (a DROPPED task; with one-cell records F17 can only run a wrong function — which is what happens to
+`t0@6` here: its address now holds closure 10's function word). The queue model with stable handles runs `t1` and `t0` at 6. Shape replayed on the real runtimes by every check run (`corpus/C11/upvalue_records.txt`). -/
+theorem C11_wasm_record_upvalue_read_as_function_counterexample :
+    (R.run recFmt stdHeap recEnv 8 ()).ticks.map (·.execd)
+      = [[], [⟨1, 3⟩], [⟨2, 2⟩], [⟨3, 10⟩], [], [], [⟨6, 10⟩], []] ∧
+    (W.runH stdHeap recEnv 8 ()).ticks.map (·.execd)
+      = [[], [⟨1, 3⟩], [⟨2, 2⟩], [⟨3, 10⟩], [], [], [⟨6, 1⟩, ⟨6, 0⟩], []] ∧
+    ((R.run recFmt stdHeap recEnv 8 ()).ticks.flatMap (·.execd)).count ⟨6, 1⟩ = 0 ∧
+    ((R.run recFmt stdHeap recEnv 8 ()).greqs ++ (R.run recFmt stdHeap recEnv 8 ()).ticks.flatMap (·.reqs)).count ⟨6, 1⟩ = 1 := by
+  decide +kernel
+
+/-- non-vacuity: `recFmt` is well formed on the closures `recEnv` uses … and `counterEnv` is slot consistent (above), so
+the positive theorem applies to it with two-cell records as well -/
+example : ∀ id, id = 10 ∨ id < 99 → ∀ rd : Nat → Nat,
+    (∀ (k : Nat) (hk : k < (recFmt.cells id).length), rd k = (recFmt.cells id)[k]) → recFmt.decode rd = some id := by
+  intro id hid rd h
+  by_cases e : id = 10
+  · subst e
+    have := h 0 (by simp [recFmt])
+    simp [recFmt] at this ⊢
+    simp [this]
+  · have := h 0 (by simp [recFmt, e])
+    simp [recFmt, e] at this ⊢
+    have h2 : ¬ (1 + id = 100) := by omega
+    have h3 : 1 + id < 100 := by omega
+    simp [this, h2, h3]
+example : (R.run ⟨fun id => [id, 7], fun rd => some (rd 0)⟩ stdHeap counterEnv 5 0).ticks.map (·.execd.length)
+    = [0, 1, 1, 1, 1] := by decide +kernel
+
 
 /-! ## Non-vacuity -/
 
